@@ -1079,6 +1079,147 @@ example : AroundWF (Step.replaceAround 1 6 2 5 ⟨[.elem 0 [] [] []], 0, 0⟩ 1 
     GapSep (Step.replaceAround 1 6 2 5 ⟨[.elem 0 [] [] []], 0, 0⟩ 1 true) := by
   refine ⟨⟨by decide, by decide, by decide⟩, .inl (by decide)⟩
 
+/-! ### the size delta for every step kind and along a history -/
+
+/-- **every step kind**: the document size changes by the sum of (new − old) over the map's ranges
+    (no side condition on the gap beyond its position: the touching-empty-gap shape is fine here) -/
+theorem size_delta_every_step (S : Schema) (doc doc' : Node) (st : Step) (hok : AroundWF st)
+    (h : S.apply st doc = .ok doc') :
+    (fsize doc'.kids : Int) - fsize doc.kids = mapDelta st.getMap := by
+  have mk : (∀ f t sl b, st ≠ .replace f t sl b) → (∀ f t gf gt sl i b, st ≠ .replaceAround f t gf gt sl i b) →
+      (fsize doc'.kids : Int) - fsize doc.kids = mapDelta st.getMap := by
+    intro hk hk'
+    obtain ⟨hm, hsh, _⟩ := markup_steps_empty_map S doc doc' st hk hk' h
+    have hlen : fsize doc'.kids = fsize doc.kids := by
+      have := congrArg List.length hsh
+      simpa [ftoks_length] using this
+    rw [hm, hlen]
+    simp [mapDelta]
+  cases st with
+  | replace f t sl b => exact (replace_map_faithful S doc doc' f t sl b h).1
+  | replaceAround f t gf gt sl ins b =>
+    obtain ⟨hwf, hins, hg⟩ := hok
+    obtain ⟨htoks, htl, _⟩ := apply_replaceAround_toks S doc doc' f t gf gt sl ins b hwf hins hg h
+    obtain ⟨hg1, hg2, hg3⟩ := hg
+    have hlen := Slice.toks_length_int sl hwf
+    have := congrArg List.length htoks
+    simp only [List.length_append, List.length_take, List.length_drop, ftoks_length] at this
+    simp only [Step.getMap, mapDelta, List.map_cons, List.map_nil, List.sum_cons, List.sum_nil]
+    omega
+  | addMark f t m => exact mk (by intros; simp) (by intros; simp)
+  | removeMark f t m => exact mk (by intros; simp) (by intros; simp)
+  | addNodeMark pos m => exact mk (by intros; simp) (by intros; simp)
+  | removeNodeMark pos m => exact mk (by intros; simp) (by intros; simp)
+  | attr pos n v => exact mk (by intros; simp) (by intros; simp)
+  | docAttr n v => exact mk (by intros; simp) (by intros; simp)
+
+/-- Σ of the deltas of a list of maps -/
+def mapDeltaAll (ms : List StepMap) : Int := (ms.map mapDelta).sum
+
+theorem run_size_delta (S : Schema) : ∀ (sts : List Step) (tr : Tr), (∀ st ∈ sts, AroundWF st) →
+    ∃ new : List StepMap, (tr.run S sts).maps = tr.maps ++ new ∧
+      (fsize (tr.run S sts).doc.kids : Int) - fsize tr.doc.kids = mapDeltaAll new
+  | [], tr, _ => ⟨[], by simp [Tr.run], by simp [Tr.run, mapDeltaAll]⟩
+  | st :: sts, tr, hok => by
+    have hok' : ∀ s ∈ sts, AroundWF s := fun s hs => hok s (List.mem_cons_of_mem _ hs)
+    have hrun : tr.run S (st :: sts) = (tr.maybeStep S st).run S sts := by simp [Tr.run]
+    rw [hrun]
+    cases happ : S.apply st tr.doc with
+    | error e =>
+      have : tr.maybeStep S st = tr := by simp [Tr.maybeStep, happ]
+      rw [this]
+      exact run_size_delta S sts tr hok'
+    | ok d1 =>
+      have h1 : tr.maybeStep S st = tr.addStep st d1 := by simp [Tr.maybeStep, happ]
+      rw [h1]
+      obtain ⟨new, e1, e2⟩ := run_size_delta S sts (tr.addStep st d1) hok'
+      have hd := size_delta_every_step S tr.doc d1 st (hok st List.mem_cons_self) happ
+      refine ⟨st.getMap :: new, by simpa [Tr.addStep] using e1, ?_⟩
+      have hdoc : (tr.addStep st d1).doc = d1 := rfl
+      rw [hdoc] at e2
+      simp only [mapDeltaAll, List.map_cons, List.sum_cons] at e2 ⊢
+      omega
+
+/-- **Transform level**: the final document's size differs from the first document's by the sum of
+    the deltas of all recorded maps -/
+theorem transform_size_delta (S : Schema) (doc : Node) (sts : List Step) (hok : ∀ st ∈ sts, AroundWF st) :
+    (fsize ((Tr.init doc).run S sts).doc.kids : Int) - fsize doc.kids =
+      mapDeltaAll ((Tr.init doc).run S sts).maps := by
+  obtain ⟨new, e1, e2⟩ := run_size_delta S sts (Tr.init doc) hok
+  replace e1 : ((Tr.init doc).run S sts).maps = new := by simpa [Tr.init] using e1
+  rw [e1]
+  simpa [Tr.init] using e2
+
+/-! ### the two sides agree on where a surviving token is -/
+
+/-- a token outside the map's replaced ranges keeps width one: the left image of the position after
+    it is one past the right image of the position before it -/
+def UnitWidth (m : StepMap) : Prop := ∀ i : Int, outside m i → m.map (i + 1) (-1) = m.map i 1 + 1
+
+/-- **every step kind**: the map of a successfully applied step (with the side condition of
+    `replaceAround_map_faithful`) gives every surviving token width one — the `assoc = 1` image of the
+    position before it and the `assoc = -1` image of the position after it delimit exactly that token -/
+theorem step_unit_width (S : Schema) (doc doc' : Node) (st : Step) (hok : AroundOK st)
+    (h : S.apply st doc = .ok doc') : UnitWidth st.getMap := by
+  intro i hout
+  cases st with
+  | replace f t sl b =>
+    obtain ⟨_, hft, _, _⟩ := apply_replace_facts S doc doc' f t sl b h
+    have := hout ((f : Int), (t : Int) - f, sl.size) (by simp [Step.getMap])
+    simp only at this
+    exact map_one_unit _ _ _ _ (by omega) (by omega)
+  | replaceAround f t gf gt sl ins b =>
+    obtain ⟨_, hins, ⟨hg1, hg2, hg3⟩, hne⟩ := hok
+    have a := hout ((f : Int), (gf : Int) - f, (ins : Int)) (by simp [Step.getMap])
+    have b := hout ((gt : Int), (t : Int) - gt, sl.size - ins) (by simp [Step.getMap])
+    simp only at a b
+    exact map_two_unit _ _ _ _ _ _ _ (by omega) (by omega) (by omega) (by omega) ⟨by omega, by omega⟩
+  | _ => simp [Step.getMap, map_empty]
+
+/-- along a history of such maps the left chain of `i + 1` and the right chain of `i` stay one apart
+    for as long as the token survives; so "the token after `i` is never replaced" (`OutsideAll`) and
+    "the token before `i + 1` is never replaced" (`OutsideAllL`) are the same condition -/
+theorem outsideAll_iff_left : ∀ (ms : List StepMap), (∀ m ∈ ms, UnitWidth m) → ∀ (i : Int),
+    (OutsideAll ms i ↔ OutsideAllL ms (i + 1)) ∧
+    (OutsideAll ms i → mapFold ms (-1) (i + 1) = mapFold ms 1 i + 1)
+  | [], _, _ => ⟨Iff.rfl, fun _ => rfl⟩
+  | m :: ms, hu, i => by
+    have hu' : ∀ x ∈ ms, UnitWidth x := fun x hx => hu x (List.mem_cons_of_mem _ hx)
+    have e : i + 1 - 1 = i := by omega
+    simp only [OutsideAll, OutsideAllL, mapFold_cons, e]
+    refine ⟨⟨fun ⟨h1, h2⟩ => ⟨h1, ?_⟩, fun ⟨h1, h2⟩ => ⟨h1, ?_⟩⟩, fun ⟨h1, h2⟩ => ?_⟩
+    · rw [hu m List.mem_cons_self i h1]
+      exact ((outsideAll_iff_left ms hu' _).1).1 h2
+    · rw [hu m List.mem_cons_self i h1] at h2
+      exact ((outsideAll_iff_left ms hu' _).1).2 h2
+    · rw [hu m List.mem_cons_self i h1]
+      exact (outsideAll_iff_left ms hu' _).2 h2
+
+/-- **Transform level**: a token of the first document that no recorded step replaces occupies
+    exactly `[q, q + 1)` in the final document, where `q = tr.mapping.map(i, 1)` and
+    `q + 1 = tr.mapping.map(i + 1, -1)` — the two association sides agree on where it is -/
+theorem transform_surviving_token_width (S : Schema) (doc : Node) (sts : List Step)
+    (hok : ∀ st ∈ sts, AroundOK st) (i : Int) (hout : OutsideAll ((Tr.init doc).run S sts).maps i) :
+    OutsideAllL ((Tr.init doc).run S sts).maps (i + 1) ∧
+    ∃ q : Int, (Mapping.ofMaps ((Tr.init doc).run S sts).maps).map i 1 = some q ∧
+      (Mapping.ofMaps ((Tr.init doc).run S sts).maps).map (i + 1) (-1) = some (q + 1) := by
+  have hu : ∀ m ∈ ((Tr.init doc).run S sts).maps, UnitWidth m :=
+    run_maps_all S _ sts (Tr.init doc) (fun st hst d d' h => step_unit_width S d d' st (hok st hst) h)
+      (by simp [Tr.init])
+  obtain ⟨h1, h2⟩ := outsideAll_iff_left _ hu i
+  refine ⟨h1.1 hout, _, mapping_map_eq_mapFold _ i 1, ?_⟩
+  rw [mapping_map_eq_mapFold, h2 hout]
+
+/-- the side condition is needed: the touching-empty-gap map `(3, 0, 1), (3, 0, 1)` (a replace-around
+    step `3 3 3 3` inserting one token on either side of its empty gap) gives the surviving token 3
+    the images `4` and `6` -/
+example : let m : StepMap := ⟨[(3, 0, 1), (3, 0, 1)], false⟩
+    outside m 3 ∧ m.map 3 1 = 4 ∧ m.map 4 (-1) = 6 := by
+  refine ⟨?_, by decide, by decide⟩
+  intro r hr
+  simp only [List.mem_cons, List.not_mem_nil, or_false] at hr
+  rcases hr with rfl | rfl <;> simp
+
 /-! a concrete two-step history through `Tr.run`: the hypotheses of the Transform-level theorems hold
     and the two sides differ -/
 section Example
